@@ -33,6 +33,9 @@ ERRATA_FIELDS = {
 }
 # wrong operand order letters: vpcompressb/w store the SOURCE in ModRM.reg (SDM: "A" encoding, ModRM:r/m (w), ModRM:reg (r))
 ERRATA_ENCODING = {"vpcompressb": "MR", "vpcompressw": "MR"}
+# r/m operand listed as memory only although the manuals give `xmm1/m64` (SDM vol. 2B MOVSD/MOVSS "F2 0F 11 /r MOVSD xmm1/m64, xmm2"): the
+# register-register store form is what `mod_mr()` selects (ExtMov) - (name, opcodeString) -> (operand index, register class)
+ERRATA_RM_REGISTER = {("movsd", "F2 0F 11 /r"): (0, "xmm"), ("movss", "F3 0F 11 /r"): (0, "xmm")}
 T1S_SUFFIX_ELEM = {"b": 1, "w": 2, "d": 4, "q": 8, "ps": 4, "pd": 8}
 IMM_TOKEN_BYTES = {"ib": 1, "iw": 2, "id": 4, "iq": 8, "/is4": 1, "if": 6}
 
@@ -300,6 +303,9 @@ def form_lines(db):
         if is_apx(f):
             skipped.append((f["name"], f["opcodeString"], "APX (not implemented by AsmJit)"))
             continue
+        fix = ERRATA_RM_REGISTER.get((f["name"], f["opcodeString"]))
+        if fix and not f["operands"][fix[0]]["reg"]:
+            f["operands"][fix[0]]["reg"] = fix[1]
         try:
             line, roles = translate(f)
         except TranslateError as e:
